@@ -22,8 +22,33 @@ def classify(x):
     return x[1]
 
 
+ASSUME_STATIC = [
+    'schema oracle: gen/xsd2tla.py reading of the pinned XSD copies (guarded by SchemaSelfCheck)',
+    'xlink:* attribute types are hand-written from the MusicXML xlink.xsd, which is not in the repository',
+    'documented naming rule re-implemented in harness/project_impl.py (rule_elem / rule_type)',
+    'dynamic side: clause C03_accepts of the Element campaign (a sequence supplied in document order that the class accepts is a word of '
+    'the content model); the converse -- every word is accepted -- is the statement of C02 and is judged and listed there']
+
+
 def run(tier, replay=None):
+    """static part (Translation.tla on the projected tables) + dynamic part (clause C03_accepts of the Element campaign)"""
+    from . import _elem, _multi
     t0 = time.time()
+    if replay:
+        rp = json.load(open(replay)).get('replay') or {}
+        if 'hist' in rp:
+            return _elem.replay_one('C03', replay)
+    sdiv, scov = static_part(tier)
+    if scov is None:
+        return common.conclude('C03', tier, sdiv, dict(evaluations=1, distinct_nontrivial=0, states=0, transitions=0,
+                               traces_validated_against_impl=0, samples=[d['what'][-300:] for d in sdiv]), t0)
+    ediv, ecov = _elem.element_part('C03', tier)
+    cov = _multi.merge([('static', scov), ('element', ecov)])
+    cov['exhaustive'] = False
+    return common.conclude('C03', tier, sdiv + ediv, cov, t0, assumptions=ASSUME_STATIC + _elem.ASSUME)
+
+
+def static_part(tier):
     J = schema.ensure()
     wd = tlc.workdir('c03')
     p = subprocess.run([common.PY, '-W', 'ignore', '-B', os.path.join(common.VERIF, 'harness', 'project_impl.py'),
@@ -34,8 +59,7 @@ def run(tier, replay=None):
         err = p.stderr.decode('utf-8', 'replace')[-2000:]
         div = [dict(key=['C03', 'projection-failed', err.strip().splitlines()[-1] if err.strip() else ''], cls='projection-failed',
                     what='library could not be imported/projected: ' + err[-400:], replay=dict(cmd='project_impl.py'))]
-        return common.conclude('C03', tier, div, dict(evaluations=1, distinct_nontrivial=0, states=0, transitions=0,
-                               traces_validated_against_impl=0, samples=[err[-300:]]), t0)
+        return div, None
     info = json.loads(p.stdout.decode().strip().splitlines()[-1])
     with open(os.path.join(wd, 'TranslationMC.tla'), 'w') as f:
         f.write('---- MODULE TranslationMC ----\nEXTENDS Translation\n====\n')
@@ -64,7 +88,4 @@ def run(tier, replay=None):
                rule='one evaluation per projected implementation table; all are distinct; non-trivial = compared against a schema-side table',
                product_states=r['distinct'], disagreements=len(div),
                samples=[dict(type='pitch', schema_automaton=J['cm']['pitch'])] + [d['key'] for d in div[:5]])
-    return common.conclude('C03', tier, div, cov, t0, assumptions=[
-        'schema oracle: gen/xsd2tla.py reading of the pinned XSD copies (guarded by SchemaSelfCheck)',
-        'xlink:* attribute types are hand-written from the MusicXML xlink.xsd, which is not in the repository',
-        'documented naming rule re-implemented in harness/project_impl.py (rule_elem / rule_type)'])
+    return div, cov
